@@ -1100,6 +1100,26 @@ def run_in_region_direct(chk, n):
     terms = [f"o_bool (in_region_named {cstr(p)} {cstr(c)} {cstr(nm)} {cbool(u)} {cz(st)} {common.copt(en, cz)} {cz(b0)} {cz(b1)})"
              for p, c, nm, u, st, en, b0, b1 in cases]
     vals = common.coq_eval(IMPORTS + ["InRegionProofs"], terms) if chk.model_available() else None
+    # common.chr_prefix on random headers (bare / prefixed / both / neither / similar names) against InRegionProofs.chr_prefix
+    from aldy.common import chr_prefix
+    hcases = []
+    for k in range(max(60, n // 4)):
+        ch = rng.choice(["20", "1", "X", "22", "M"])
+        pool = [ch, "chr" + ch, "1" + ch, ch + "1", "chr" + ch + "1", "chrchr" + ch, "Chr" + ch, "21", "chr21"]
+        hdr = [x for x in pool if rng.random() < 0.35]
+        rng.shuffle(hdr)
+        hcases.append((ch, hdr))
+    hvals = common.coq_eval(IMPORTS + ["InRegionProofs"], [f"o_str (chr_prefix {cstr(ch)} {clist(hdr, cstr)})" for ch, hdr in hcases]) \
+        if chk.model_available() else None
+    for k, (ch, hdr) in enumerate(hcases):
+        im = chr_prefix(ch, hdr)
+        case = {"chr": ch, "header": hdr}
+        chk.case("chr-prefix-direct", case, nontrivial=bool(hdr), sample=case)
+        chk.count("chr-prefix-direct", "bare" if ch in hdr else "prefixed" if "chr" + ch in hdr else "absent")
+        if (ch in hdr or "chr" + ch in hdr) and im + ch not in hdr:
+            chk.fail("ineligible", {"stream": "chr-prefix-direct"}, case, "the name looked for is a contig of the header", f"prefix {im!r}")
+        if hvals is not None and common.dstr(hvals[k]) != im:
+            chk.mismatch("chr_prefix", case, common.dstr(hvals[k]), im)
     for k, (p, c, nm, u, st, en, b0, b1) in enumerate(cases):
         r = Rec()
         r.reference_id = -1 if u else 0
